@@ -84,6 +84,9 @@ M = [
  ('r2_auth', 'harmless', 'lib/remote/apilistener-authority.cpp', '\t\t\tif (endpoint != my_endpoint && !endpoint->GetConnected())\n\t\t\t\tcontinue;\n\n\t\t\tendpoints.push_back(endpoint);', '\t\t\tif (endpoint == my_endpoint || endpoint->GetConnected())\n\t\t\t\tendpoints.push_back(endpoint);', 'positive test instead of continue'),
  ('r2_auth2', 'semantic', 'lib/remote/apilistener-authority.cpp', 'authority = endpoints[Utility::SDBM(object->GetName()) % endpoints.size()] == my_endpoint;', 'authority = endpoints[(Utility::SDBM(object->GetName()) + 1) % endpoints.size()] == my_endpoint;', 'objects are assigned to the other endpoint'),
  ('r2_setauth', 'semantic', 'lib/base/configobject.cpp', '} else if (!authority && !GetPaused()) {', '} else if (!authority) {', 'Pause() is called again on an already paused object'),
+ ('r2_origin', 'semantic', 'lib/remote/jsonrpcconnection.cpp', 'if (m_Endpoint->GetZone() != Zone::GetLocalZone())\n\t\t\torigin->FromZone = m_Endpoint->GetZone();\n\t\telse\n\t\t\torigin->FromZone = Zone::GetByName(message->Get("originZone"));', 'origin->FromZone = Zone::GetByName(message->Get("originZone"));', 'every endpoint may claim an origin zone (the check C13 rests on)'),
+ ('r2_origin', 'harmless', 'lib/remote/jsonrpcconnection.cpp', 'if (m_Endpoint->GetZone() != Zone::GetLocalZone())\n\t\t\torigin->FromZone = m_Endpoint->GetZone();\n\t\telse\n\t\t\torigin->FromZone = Zone::GetByName(message->Get("originZone"));', 'if (m_Endpoint->GetZone() == Zone::GetLocalZone())\n\t\t\torigin->FromZone = Zone::GetByName(message->Get("originZone"));\n\t\telse\n\t\t\torigin->FromZone = m_Endpoint->GetZone();', 'branches swapped with the negated test'),
+ ('r2_relay', 'semantic', 'lib/remote/apilistener.cpp', '\t\ttargetZone != localZone->GetParent() &&\n', '', 'messages for the parent zone are no longer relayed'),
  ('is_child_of', 'unrecognised', 'lib/remote/zone.cpp', '\tZone::Ptr azone = this;\n', '\tZone::Ptr azone = GetParent();\n', 'call outside the binding environment: degrades'),
 ]
 
